@@ -95,7 +95,7 @@ fn targets(t: &[Entry], styles: &[Style; 6]) -> [String; 6] {
 		if i == 5 {
 			return CLS[5].to_owned();
 		}
-		let s = SIMPLE[i];
+		let s = LETTER[i];
 		match styles[i] {
 			Style::Plain => format!("q/{s}t"),
 			Style::Calamus => format!("q/C_1{}", i + 1),
@@ -130,7 +130,7 @@ fn row2(a: &str, b: Option<&str>) -> Vec<Option<String>> {
 fn mapping_set(tg: &[String; 6], no_target: Option<usize>, method_row: MethodRow) -> MSet {
 	let mut set = MSet::new(&["calamus", "named"]);
 	for i in 0..5 {
-		let s = SIMPLE[i];
+		let s = LETTER[i];
 		let mut c = MClass { names: row2(CLS[i], if no_target == Some(i) { None } else { Some(&tg[i]) }), doc: if i == 1 { Some("comment on B, mentions p/B and p/A$B".into()) } else { None }, ..Default::default() };
 		c.fields.insert(("f".into(), "Lp/B;".into()), MField { names: row2("f", Some(&format!("f{s}T"))), doc: None });
 		c.fields.insert(("g".into(), format!("[[L{};", CLS[(i + 4) % 6])), MField { names: row2("g", Some("gT")), doc: Some("field comment".into()) });
@@ -146,7 +146,7 @@ fn mapping_set(tg: &[String; 6], no_target: Option<usize>, method_row: MethodRow
 			},
 			MethodRow::NoRow => {},
 		}
-		c.methods.insert(("k".into(), "(Lp/D;Lp/F;)Lp/A;".into()), MMethod { names: row2("k", Some("kT")), doc: None, params: BTreeMap::new() });
+		c.methods.insert(("k".into(), format!("(L{};L{};)L{};", CLS[3], CLS[5], CLS[0])), MMethod { names: row2("k", Some("kT")), doc: None, params: BTreeMap::new() });
 		set.classes.insert(CLS[i].to_owned(), c);
 	}
 	set
@@ -829,7 +829,7 @@ fn cycle_probe(st: &mut Stats) -> Vec<String> {
 			Err(e) => format!("probe could not run: {e}"),
 		};
 		st.outcome(&format!("info:cyclic-table:{which}:{}", if what.starts_with("process killed") { "killed-by-signal" } else if what == "returns" { "returns" } else { "other" }));
-		notes.push(format!("outside the stated space (cyclic table p/B in p/C, p/C in p/B), information only: {} -> {what}", if which == "jar" { "nest_jar" } else { "apply_nests_to_mappings" }));
+		notes.push(format!("outside the stated space (cyclic table: p/B in p/C_12 and p/C_12 in p/B), information only: {} -> {what}", if which == "jar" { "nest_jar" } else { "apply_nests_to_mappings" }));
 	}
 	notes
 }
@@ -895,7 +895,10 @@ fn main() {
 	let s4 = TableSpace::new(4, &KINDS_MINI[..3]);
 	run("tables-of-0", sweep_tables(ctx, &fx, &plain, &s0, Orders::Canonical, "s0"));
 	run("tables-of-1 (22 kinds)", sweep_tables(ctx, &fx, &plain, &s1, Orders::Canonical, "s1"));
-	if quick {
+	let smoke = std::env::var_os("C14_SMOKE").is_some();
+	if smoke {
+		ctx.note("C14_SMOKE: development run over tables of <= 1 entry only (not a tier)".to_string());
+	} else if quick {
 		run("tables-of-2 (22 kinds)", sweep_tables(ctx, &fx, &plain, &s2, Orders::Canonical, "s2"));
 		run("tables-of-2 in reverse order (8 kinds)", sweep_tables(ctx, &fx, &plain, &s2r, Orders::ReversedOnly, "s2r"));
 		run("tables-of-3 (4 kinds)", sweep_tables(ctx, &fx, &plain, &s3, Orders::Canonical, "s3"));
@@ -912,7 +915,9 @@ fn main() {
 	static ALL_ROWS: [MethodRow; 3] = [MethodRow::Renamed, MethodRow::NoRow, MethodRow::SameName];
 	static ONE_ROW: [MethodRow; 1] = [MethodRow::Renamed];
 	run("styled-tables-of-1 (22 kinds)", sweep_styled(ctx, &s1, &ENCL_STYLES, &ALL_ROWS));
-	run(if quick { "styled-tables-of-2 (6 kinds)" } else { "styled-tables-of-2 (22 kinds)" }, sweep_styled(ctx, if quick { &s2c } else { &s2 }, &ENCL_PLAIN, &ONE_ROW));
+	if !smoke {
+		run(if quick { "styled-tables-of-2 (6 kinds)" } else { "styled-tables-of-2 (22 kinds)" }, sweep_styled(ctx, if quick { &s2c } else { &s2 }, &ENCL_PLAIN, &ONE_ROW));
+	}
 
 	// S3: information only
 	let (info, panic_sites) = sweep_missing_targets(&fx, &s1);
